@@ -6,6 +6,8 @@
 From Coq Require Import String ZArith Bool Arith List.
 From SV Require Import Names Rep Complex Homology Filtration Gen World Small Sweeps NamesFacts RepInv Shapes FlagExt VInv DD MinCycle FlagSound FlagComplete CopyOk VRProofs FlagFinal GrowComplete.
 
+Import ListNotations.
+
 Theorem C11_flag_is_clique_complex_upto4_partial : forall c, In c complexes4 -> chk_flag (build c) = true.
 Proof. exact flag_upto4. Qed.
 Print Assumptions C11_flag_is_clique_complex_upto4_partial.
